@@ -1,9 +1,16 @@
-import sys
+import sys, json
 pid=sys.argv[1]
 first=int(sys.argv[2]) if len(sys.argv)>2 else 1
 last=first+2
 wt="/tmp/wt-%s"%pid.lower()
-import json
+import glob, os
+tried=[]
+if len(sys.argv)>3 and sys.argv[3]=='tried':
+    for mf in sorted(glob.glob('/verif/seeded/%s-m*/meta.json'%pid)):
+        try:
+            tried.append('- '+json.load(open(mf)).get('summary','')[:260].replace('\n',' '))
+        except Exception: pass
+TRIED=('\nThe following ideas have ALREADY been used by others for this property; do NOT repeat them or close variants of them - find different mechanisms, different code sites, different triggering conditions:\n'+'\n'.join(tried)+'\n') if tried else ''
 prop=None
 for l in open('/verif/properties.jsonl'):
     p=json.loads(l)
@@ -16,7 +23,7 @@ Work ONLY inside the git worktree {wt} (a scratch checkout of the library). Do n
 The semantic property that must normally hold:
 
 {prop}
-
+{TRIED}
 Task: produce THREE different, independent source changes to the library (each a small patch, 1-15 lines, to non-test .go files under {wt}/diam) such that each one:
   1. still compiles (`go build ./...` and `go vet ./diam/...` do not get worse),
   2. still passes the existing pinned test-suite: run `cd {wt} && go test -vet=off -count=1 ./diam/ ./diam/datatype/ ./diam/dict/ ./diam/sm/smparser/ ./diam/sm/smpeer/ 2>&1 | tail -20` and compare with the result on the unmodified tree. NOTE: on the unmodified tree the packages ./diam and ./diam/sm abort at their first SCTP test (no SCTP in this sandbox) - tests that run before that point must still pass; to be safe run the non-SCTP tests explicitly, e.g. `go test -vet=off -count=1 -run 'Test[^C]|TestC[^a]' ./diam/` style filters, and make sure every test that passes on the unmodified tree still passes with your change;
